@@ -185,7 +185,11 @@ func (c *ShipConnection) CloseConnection(safe bool, code int, reason string) {
 				},
 			}
 
-			_ = c.sendShipModel(model.MsgTypeEnd, closeMessage)
+			// not via sendShipModel: it closes the connection if the transport is already gone,
+			// and closing from within shutdownOnce would wait for itself forever
+			if shipMsg, err := c.encodeShipMessage(model.MsgTypeEnd, closeMessage); err == nil {
+				_ = c.dataWriter.WriteMessageToWebsocketConnection(shipMsg)
+			}
 
 			go func() {
 				// wait a bit to let it send
@@ -422,6 +426,11 @@ func (c *ShipConnection) shipMessage(typ byte, model interface{}) ([]byte, error
 		return nil, err
 	}
 
+	return c.encodeShipMessage(typ, model)
+}
+
+// transform a SHIP model into EEBUS specific JSON, whatever the state of the connection is
+func (c *ShipConnection) encodeShipMessage(typ byte, model interface{}) ([]byte, error) {
 	if model == nil {
 		return nil, errors.New("invalid data")
 	}
